@@ -256,6 +256,17 @@ impl Property for C17 {
         };
         let mut idx = 1;
         let mut ranges: Vec<(u64, u64)> = vec![(rsp.min(start), stack_area.1)];
+        // where the frame ends: POP either reads at RSP (hardware) or at RSP+8 (this emulator, KF-C04-1);
+        // tell the two apart by where argc and the first pointer sit, and when in doubt take the lower end
+        let rsp_after = ax.reg_read_64(SR::RSP).unwrap();
+        let slot = |a: u64| -> Option<u64> {
+            let m = ax.verif_area_meta().into_iter().find(|m| a >= m.0 && a - m.0 + 8 <= m.1)?;
+            let d = ax.verif_area_data(m.0)?;
+            Some(u64::from_le_bytes(d[(a - m.0) as usize..(a - m.0) as usize + 8].try_into().unwrap()))
+        };
+        let hw = slot(rsp) == Some(pops[0]) && slot(rsp + 8) == Some(pops[1]);
+        let emu = slot(rsp + 8) == Some(pops[0]) && slot(rsp + 16) == Some(pops[1]);
+        let frame_end = if emu && !hw { rsp_after.wrapping_add(8) } else { rsp_after };
         for (kind, list) in [("argument", &c.argv), ("environment entry", &c.envp)] {
             for (i, s) in list.iter().enumerate() {
                 let p = pops[idx];
@@ -286,15 +297,17 @@ impl Property for C17 {
                     return out;
                 }
             }
-            if a.0 < start + stack_area.1 && start < a.0 + a.1 {
-                fail(&mut out, "frame|string-inside-stack-area", format!("string at {:#x} overlaps the stack area", a.0));
+            // the free stack space and the frame itself end where the last popped slot ends; a string
+            // may share the stack's area above that (the Linux layout) but not lie below it
+            if a.0 < frame_end && start < a.0 + a.1 {
+                fail(&mut out, "frame|string-inside-frame-or-free-stack", format!("string at {:#x}+{} overlaps the free stack space or the frame ({:#x}..{:#x})", a.0, a.1, start, frame_end));
                 return out;
             }
         }
         out
     }
     fn rule(&self) -> String {
-        "cases: argv/envp lists of 0–59 entries (1/300 of the cases 150–600 more), strings of 0–200 bytes (occasionally 10 KiB) incl. empty and multi-byte UTF-8, no interior NUL; stack sizes 0x10…0x20000 incl. non-multiples of 16 and sizes smaller than the frame; layouts: constructor code at 0x1000 / high, extra areas, a loaded generated ELF; 1/10 plain init_stack; oracle: the guest's view by executing POP instructions (argc, argv pointers to NUL-terminated copies in mapped RW memory, null, envp likewise, null), RSP % 16 = 0, frame/strings/image pairwise disjoint, free space below RSP within ±48 bytes of the request, the call succeeds; non-trivial = ≥1 argument and ≥1 environment entry, or a frame larger than 1/4 of the stack size; distinct by hash(case)".into()
+        "cases: argv/envp lists of 0–59 entries (1/300 of the cases 150–600 more), strings of 0–200 bytes (occasionally 10 KiB) incl. empty and multi-byte UTF-8, no interior NUL; stack sizes 0x10…0x20000 incl. non-multiples of 16 and sizes smaller than the frame; layouts: constructor code at 0x1000 / high, extra areas, a loaded generated ELF; 1/10 plain init_stack; oracle: the guest's view by executing POP instructions (argc, argv pointers to NUL-terminated copies in mapped RW memory, null, envp likewise, null), RSP % 16 = 0, frame, free stack space, strings and image pairwise disjoint (strings may share the stack's area above the frame), free space below RSP within ±48 bytes of the request, the call succeeds; non-trivial = ≥1 argument and ≥1 environment entry, or a frame larger than 1/4 of the stack size; distinct by hash(case)".into()
     }
     fn required_classes(&self, _tier: Tier) -> Vec<String> {
         ["layout:0", "layout:1", "layout:2", "layout:3", "frame-larger-than-requested-stack", "odd-count", "even-count", "plain-init-stack"].iter().map(|s| s.to_string()).collect()
